@@ -16,8 +16,11 @@ def records(cases, outs, cfgs):
             before = (pl.get("before") or {}).get("schema", [])
             opt_ok = "ok" if (bound and pl.get("after") is not None) else "err"
             after = (pl.get("after") or {}).get("schema", []) if opt_ok == "ok" else before
+            ub = len((pl.get("before") or {}).get("join_refs_unresolved", []))
+            ua = len((pl.get("after") or {}).get("join_refs_unresolved", [])) if opt_ok == "ok" else ub
             recs.append({"id": o["id"], "cfg": i, "bound": bound, "before": before, "after": after, "opt": opt_ok,
-                         "base": base["k"], "exec": x["k"], "cls": x.get("cls", "")})
+                         "base": base["k"], "exec": x["k"], "cls": x.get("cls", ""), "ub": ub, "ua": ua,
+                         "keys": (pl.get("after") or {}).get("join_key_cols_seen", 0)})
     return recs
 
 
@@ -31,6 +34,7 @@ def judge(ctx, cases, outs, cfgs, name):
         raise vlib.ToolError("OptTrace did not consume the trace")
     ctx.tlc_stats(res, f"OptTrace validation of {len(recs)} rule applications ({name})")
     ctx.add("programs", len([r for r in recs if r["bound"]]))
+    ctx.add("join_key_columns_checked_for_resolution", sum(r["keys"] for r in recs))
     ctx.add("traces_validated_against_impl", 1)
     return [(r["id"], r["cfg"]) for k, r in res.prints if k == "REJECT"], recs
 
@@ -68,6 +72,8 @@ def run(ctx):
                 lab = "optimizer-error"
             elif pl.get("after") and pl["after"]["schema"] != pl["before"]["schema"]:
                 lab = "schema-changed"
+            elif pl.get("after") and pl["after"].get("join_refs_unresolved") and not pl["before"].get("join_refs_unresolved"):
+                lab = "join-key-does-not-resolve"
             else:
                 lab = "rewritten-plan-fails-to-execute"
             listed = known.get(fam, {}).get(h, {}).get(cfgname)
@@ -90,7 +96,9 @@ def run(ctx):
                              "executes whenever the unoptimized plan does. Non-trivial = distinct (statement, rule list) where the plan changed.")
     optprop.require_fired(ctx, ["alone:PredicatePushdown", "alone:JoinReorder", "alone:SubqueryDecorrelation", "alone:GroupKeyReduction",
                                 "alone:PackedGroupKeys", "alone:PackedJoinKeys", "alone:ProjectionPushdown"])
-    ctx.assumptions += ["column references 'resolve' is decided operationally: the rewritten plan must lower to a physical plan and execute"]
+    ctx.assumptions += ["column references 'resolve' is decided (a) structurally for join keys: every qualified column of a join key of the rewritten plan "
+                        "must be a column (same qualifier, same name) of the join input it is evaluated on, whenever that held in the bound plan; "
+                        "(b) operationally for everything else: the rewritten plan must lower to a physical plan and execute"]
 
 
 def replay(ctx, obj):
